@@ -46,12 +46,18 @@ def gen_scenario(rng, want_index=None, want_verify=None):
             preq += [f for f in uni.listing(t) if f not in preq]
         pre = {"req": preq, "delete_dirs": [t for t in trees if rng.random() < 0.5],
                "delete_files": [f for f in files if rng.random() < 0.4]}
+    # sometimes one failing file fails because its source object vanishes between the status query and the copy
+    vanish = []
+    if rng.random() < 0.3:
+        vc = [o for o in fail if not o.endswith(".dir") and o in src and o not in corrupt]
+        if vc:
+            vanish = [rng.choice(vc)]
     sc = {
         "files": {k: v.decode() for k, v in uni.files.items()},
         "trees": {d: {"/".join(k): v for k, v in e.items()} for d, e in uni.trees.items()},
         "src": src, "corrupt": corrupt, "dest": sorted(dest), "req": req, "shallow": shallow, "fail": fail,
         "verify": verify, "index": index, "pre": pre, "dest_state": rng.random() < 0.4,
-        "src_local": rng.random() < 0.5, "dest_local": rng.random() < 0.5,
+        "src_local": rng.random() < 0.5, "dest_local": rng.random() < 0.5, "vanish": vanish,
     }
     return sc, uni
 
@@ -121,11 +127,11 @@ class Run:
         if bad:
             self.closure_bad.append({"after_upload_of": oid, "dangling": bad[:3]})
 
-    def transfer(self, fail, verify=None):
+    def transfer(self, fail, verify=None, vanish=()):
         from dvc_data.hashfile.transfer import transfer
 
         sc = self.sc
-        faults = stores.Faults(self.dest, fail, on_event=self._audit)
+        faults = stores.Faults(self.dest, fail, on_event=self._audit, vanish=vanish)
         req = {stores.hi(o) for o in sc["req"]}
 
         def f():
